@@ -30,6 +30,9 @@ pub enum Op {
     Idle400,
     Idle1100,
     Idle5s,
+    /// the application browses the type again (new channel, served from the cache first); not part
+    /// of `OPS`: used by the scenario variants that list it
+    BrowseAgain,
 }
 pub const OPS: [Op; 20] = [
     Op::AnnI2,
@@ -406,7 +409,9 @@ impl Store {
 impl Scenario for Scn {
     type Run = Run;
     fn name(&self) -> String {
-        if self.host == HOST_PLAIN {
+        if self.ops.contains(&Op::BrowseAgain) {
+            format!("browse-histories-{:?}-with-a-second-browse", self.prop)
+        } else if self.host == HOST_PLAIN {
             format!("browse-histories-{:?}", self.prop)
         } else {
             format!("browse-histories-{:?}-host-with-capitals", self.prop)
@@ -473,6 +478,17 @@ impl Scenario for Scn {
                 run.store.verifies.push((now, i.inst.clone(), 2700, pos));
                 run.w.ds[0].h.verify(i.fullname(), Duration::from_millis(2700)).unwrap();
                 run.w.poke(0);
+            }
+            Op::BrowseAgain => {
+                let lix = run.w.log.len();
+                let rx = run.w.ds[0].h.browse("_t._tcp.local.").unwrap();
+                run.ch = run.w.add_browse(0, rx);
+                run.w.poke(0);
+                // the new listener starts from nothing: what it is told comes from the cache
+                run.seen = lix;
+                for st in run.insts.values_mut() {
+                    *st = InstState::default();
+                }
             }
             Op::Idle400 => run.w.advance(400),
             Op::Idle1100 => run.w.advance(1100),
